@@ -38,14 +38,23 @@ ALL_FIELDS = (["str", "val"] + TEXT + OPT_TEXT + OPT_INT + SEQ_TEXT + BOOL +
               ["query", "is_default_port", "bool", "human_repr"])
 
 
+import os as _os
+import random as _random
+
+_order_rng = _random.Random(int(_os.environ.get("VERIF_SEED", "0") or 0) * 7919 + 17)
+
+
 def obs(u, fields=None):
-    """Observe URL `u`.  `fields`: iterable of field names (default: all)."""
+    """Observe URL `u`.  `fields`: iterable of field names (default: all).
+    The accessors are read in a (seeded) RANDOM ORDER: for correct code the order cannot matter, but a value that depends on
+    which property was read first (a cache entry derived from another cache entry) only shows under some orders."""
     want = set(fields) if fields is not None else None
     o = {}
+    todo = []
 
     def put(name, f):
         if want is None or name in want:
-            o[name] = safe(f)
+            todo.append((name, f))
 
     put("str", lambda: T(str(u)))
     put("val", lambda: [T(p) for p in u.__getstate__()[0]])
@@ -63,6 +72,9 @@ def obs(u, fields=None):
     put("is_default_port", lambda: bool(u.is_default_port()))
     put("bool", lambda: bool(u))
     put("human_repr", lambda: T(u.human_repr()))
+    _order_rng.shuffle(todo)
+    for name, f in todo:
+        o[name] = safe(f)
     return o
 
 
